@@ -55,6 +55,11 @@ def solve_one(hyps, goal, timeout_ms=10000, use_cvc5=True, seed=0):
     if r == z3.sat:
         return {"status": "refuted", "backend": "z3", "seconds": dt, "model": s.model()}
     reason = s.reason_unknown()
+    if z3.is_false(z3.simplify(goal)):
+        # the goal is a frame/structure fact the engine evaluated to False on this path; the solver could not show the
+        # path infeasible, so the obligation fails (no model: quantified hypotheses)
+        return {"status": "refuted", "backend": "z3", "seconds": dt, "model": None,
+                "reason": "engine-evaluated clause is false on a path the solver cannot prove infeasible"}
     if use_cvc5:
         try:
             smt2 = s.to_smt2().replace("(check-sat)", "")
